@@ -220,7 +220,8 @@ def _emit_ddd(hier: dict, layer: dict, out: list) -> None:
 
 def _emit_comparam_ref(hier: dict, cp: dict, out: list) -> None:
     """cp = {"param": short name in the subset, "protocol": None|name, "form": "VALUE"|"SIMPLE"|"COMPLEX",
-             "value": str | None (None = empty element) | [str|None, ...] for COMPLEX, "uid": str}
+             "value": str | None (None = empty element) | [str|None|[...], ...] for COMPLEX (a nested list is the value of
+             a nested complex sub-parameter), "uid": str, "prot_stack": None|name (PROT-STACK-SNREF)}
     the uid is written into the TI attribute of DESC so that the resolved instance can be identified"""
     sub = hier["subset"]
     out.append(f'<COMPARAM-REF ID-REF="{sub["name"]}.{cp["param"]}" DOCREF="{sub["name"]}" DOCTYPE="COMPARAM-SUBSET">')
@@ -230,12 +231,19 @@ def _emit_comparam_ref(hier: dict, cp: dict, out: list) -> None:
         v = cp["value"]
         out.append(f"<{tag}/>" if v is None else f"<{tag}>{_e(v)}</{tag}>")
     else:
-        out.append("<COMPLEX-VALUE>")
-        for v in cp["value"]:
-            out.append("<SIMPLE-VALUE/>" if v is None else f"<SIMPLE-VALUE>{_e(v)}</SIMPLE-VALUE>")
-        out.append("</COMPLEX-VALUE>")
+        def cv(vals):
+            out.append("<COMPLEX-VALUE>")
+            for v in vals:
+                if isinstance(v, list):      # value of a nested complex sub-parameter
+                    cv(v)
+                else:
+                    out.append("<SIMPLE-VALUE/>" if v is None else f"<SIMPLE-VALUE>{_e(v)}</SIMPLE-VALUE>")
+            out.append("</COMPLEX-VALUE>")
+        cv(cp["value"])
     if cp.get("uid") is not None:
         out.append(f'<DESC TI="{_e(cp["uid"])}"><p>d</p></DESC>')
+    if cp.get("prot_stack") is not None:
+        out.append(f'<PROT-STACK-SNREF SHORT-NAME="{cp["prot_stack"]}"/>')
     if cp.get("protocol") is not None:
         out.append(f'<PROTOCOL-SNREF SHORT-NAME="{cp["protocol"]}"/>')
     out.append("</COMPARAM-REF>")
@@ -376,8 +384,15 @@ def subset_xml(sub: dict) -> bytes:
     for n, subs in sub.get("complex", {}).items():
         out.append(f'<COMPLEX-COMPARAM ID="{S}.{n}" PARAM-CLASS="UNIQUE_ID" CPTYPE="STANDARD" CPUSAGE="ECU-COMM" '
                    f'ALLOW-MULTIPLE-VALUES="false"><SHORT-NAME>{n}</SHORT-NAME>')
-        for sn, d in subs:
-            out.append(simple(sn, d, f"{S}.{n}."))
+        for e in subs:       # document order = positional order of the COMPLEX-VALUE entries
+            if isinstance(e, dict):     # nested complex sub-parameter {"name": ..., "subs": [[sn, default], ...]}
+                out.append(f'<COMPLEX-COMPARAM ID="{S}.{n}.{e["name"]}" PARAM-CLASS="UNIQUE_ID" CPTYPE="STANDARD" '
+                           f'CPUSAGE="ECU-COMM"><SHORT-NAME>{e["name"]}</SHORT-NAME>')
+                for sn, d in e["subs"]:
+                    out.append(simple(sn, d, f"{S}.{n}.{e['name']}."))
+                out.append("</COMPLEX-COMPARAM>")
+            else:
+                out.append(simple(e[0], e[1], f"{S}.{n}."))
         out.append("</COMPLEX-COMPARAM>")
     out.append("</COMPLEX-COMPARAMS><DATA-OBJECT-PROPS>"
                f'<DATA-OBJECT-PROP ID="{S}.dop"><SHORT-NAME>dop</SHORT-NAME>{_IDENT}'
@@ -391,14 +406,17 @@ def spec_xml(spec: dict | None, sub: dict | None) -> bytes:
     spec = spec or {"name": "cs"}
     C = spec["name"]
     out = [HEAD, f'<COMPARAM-SPEC ID="CS.{C}"><SHORT-NAME>{C}</SHORT-NAME>']
-    if spec.get("prot_stack"):
-        ps = spec["prot_stack"]
-        out.append(f'<PROT-STACKS><PROT-STACK ID="CS.{C}.{ps}"><SHORT-NAME>{ps}</SHORT-NAME>'
-                   '<PDU-PROTOCOL-TYPE>ISO_15765_3_on_ISO_15765_2</PDU-PROTOCOL-TYPE>'
-                   '<PHYSICAL-LINK-TYPE>ISO_11898_2_DWCAN</PHYSICAL-LINK-TYPE><COMPARAM-SUBSET-REFS>')
-        if sub is not None:
-            out.append(f'<COMPARAM-SUBSET-REF ID-REF="{sub["name"]}" DOCREF="{sub["name"]}" DOCTYPE="COMPARAM-SUBSET"/>')
-        out.append("</COMPARAM-SUBSET-REFS></PROT-STACK></PROT-STACKS>")
+    stacks = list(spec.get("prot_stacks") or ([spec["prot_stack"]] if spec.get("prot_stack") else []))
+    if stacks:
+        out.append("<PROT-STACKS>")
+        for ps in stacks:
+            out.append(f'<PROT-STACK ID="CS.{C}.{ps}"><SHORT-NAME>{ps}</SHORT-NAME>'
+                       '<PDU-PROTOCOL-TYPE>ISO_15765_3_on_ISO_15765_2</PDU-PROTOCOL-TYPE>'
+                       '<PHYSICAL-LINK-TYPE>ISO_11898_2_DWCAN</PHYSICAL-LINK-TYPE><COMPARAM-SUBSET-REFS>')
+            if sub is not None:
+                out.append(f'<COMPARAM-SUBSET-REF ID-REF="{sub["name"]}" DOCREF="{sub["name"]}" DOCTYPE="COMPARAM-SUBSET"/>')
+            out.append("</COMPARAM-SUBSET-REFS></PROT-STACK>")
+        out.append("</PROT-STACKS>")
     out.append("</COMPARAM-SPEC></ODX>")
     return "".join(out).encode()
 
